@@ -1,6 +1,6 @@
 //! Engine: seeded proptest runner pool, exhaustive enumerations, shrinking, replay files,
 //! evidence, known-finding gate.  See DESIGN.md §2.3–2.5, §5.2.
-use proptest::strategy::{BoxedStrategy, Strategy};
+use proptest::strategy::BoxedStrategy;
 use proptest::test_runner::{Config, RngAlgorithm, RngSeed, TestCaseError, TestError, TestRunner};
 use serde::{Serialize, de::DeserializeOwned};
 use serde_json::{Value, json};
@@ -40,6 +40,16 @@ pub enum Bad {
     Known(&'static str, String),
 }
 pub type Res = Result<(), Bad>;
+
+/// infrastructure problems seen inside cases (timeouts, spawn failures): the run becomes
+/// "inconclusive" (exit 2); they are never verdicts.
+pub static INFRA: Mutex<Vec<String>> = Mutex::new(Vec::new());
+pub fn infra(msg: impl Into<String>) {
+    let mut g = INFRA.lock().unwrap();
+    if g.len() < 20 {
+        g.push(msg.into());
+    }
+}
 
 pub fn fail<T>(msg: impl Into<String>) -> Result<T, Bad> {
     Err(Bad::Fail(msg.into()))
@@ -296,11 +306,6 @@ where
                 let fails = &fails;
                 s.spawn(move || {
                     let seed = derive_seed(env.seed, env.prop, self.name, w as u64);
-                    let mut bytes = [0u8; 32];
-                    for (i, ch) in bytes.chunks_mut(8).enumerate() {
-                        ch.copy_from_slice(&splitmix(seed.wrapping_add(i as u64)).to_le_bytes());
-                    }
-                    let _ = bytes;
                     let cfg = Config {
                         cases: per as u32,
                         failure_persistence: None,
@@ -707,6 +712,7 @@ pub fn run_property(p: &Property, tier: Tier, seed: u64, root: &std::path::Path,
         stats.push(st);
     }
 
+    infra.extend(INFRA.lock().unwrap().drain(..));
     // 4. report
     for f in &open {
         if let Some((n, what)) = known_seen.get(&f.id) {
@@ -734,7 +740,9 @@ pub fn run_property(p: &Property, tier: Tier, seed: u64, root: &std::path::Path,
     if samples.is_empty() {
         samples.push(json!({"note": "no sample collected"}));
     }
-    let all_exh = !stats.is_empty() && stats.iter().all(|s| s.exhaustive);
+    // true when at least one finite universe was enumerated completely (which ones:
+    // exhaustive_sub_checks); the random sub-checks are of course not exhaustive
+    let all_exh = stats.iter().any(|s| s.exhaustive);
     let sub_json: Vec<Value> = stats
         .iter()
         .map(|s| {
